@@ -889,7 +889,7 @@ Proof.
     assert (E : absEntry (complained A c) (Some v) = Some (mkC (complained A c) true v)) by (destruct (complained A c); reflexivity).
     rewrite E. cbn [c_ans].
     apply (refines_same A); auto. apply (ans_dup A b z Eb v Eac).
-    intro Hn. rewrite (Searly Hn c). fold c. rewrite Eac. reflexivity. }
+    intro Hn. fold c. rewrite (Searly Hn c), Eac. reflexivity. }
   pose proof (ans_Phi A b z Eb Eac P Searly) as PB. fold c in PB.
   destruct (complained A c) eqn:Ecm; cbn [absEntry c_recv c_ans c_val].
   - (* the complaint is registered *)
@@ -897,7 +897,7 @@ Proof.
     2:{ pose proof (read_star_unreadable z 0 Hrz) as Er. destruct (read_star z 0) as [ok val]. cbn in Er. subst ok. cbn [negb].
         split; intro Hq'; [discriminate Hq'|]. rewrite PB. reflexivity. }
     rewrite (read_star_readable z 0 Hrz). cbn [negb]. cbn [negb] in PB.
-    destruct (v_vArecv (q_v q)) eqn:Er; cbn [q_v qset_compl].
+    cbn [q_v qset_compl]. destruct (v_vArecv (q_v q)) eqn:Er.
     + destruct (vecF_valid A q S P Er) as (l & Ev & Evo & Ey).
       unfold check_complaint. cbn [q_v qset_compl]. rewrite Ey, (pubkeys_nth_error _ c Hc).
       rewrite Evo in PB. cbn [andb orb] in PB.
@@ -908,22 +908,24 @@ Proof.
         split; [|exact PB].
         apply Z.eqb_eq in Ez.
         destruct (Nat.eqb_spec c (c_my cf)) as [Ecp|Ecp].
-        -- apply (SA_answer A q b z _ Eb S Eac Hrz); cbn; auto.
-           left. fold c. split; [exact Ecp|]. split; [rewrite <- Ecp; exact Ecm|]. split; [|reflexivity].
-           intros a Ea. rewrite Evo in Ea. inversion Ea; subst a. rewrite Ez, Ecp. reflexivity.
-        -- apply (SA_answer A q b z _ Eb S Eac Hrz); cbn; auto.
+        -- apply (SA_answer A q b z _ Eb S Eac Hrz); cbn; auto; try (intro c'; fold c; rewrite Ecm; reflexivity).
+           left. fold c. split; [exact Ecp|]. split; [unfold p; rewrite <- Ecp; exact Ecm|]. split; [|reflexivity].
+           intros a Ea. rewrite Evo in Ea. inversion Ea; subst a. rewrite Ez. unfold p. rewrite <- Ecp. reflexivity.
+        -- apply (SA_answer A q b z _ Eb S Eac Hrz); cbn; auto; try (intro c'; fold c; rewrite Ecm; reflexivity).
+           all: try (right; fold c; split; [left; exact Ecp|reflexivity]).
       * split; intro Hq'; [cbn in Hq'; discriminate Hq'|]. exact PB.
     + destruct (vecF_none A q S Er) as [Ev Evo]. rewrite Evo in PB. cbn [orb] in PB.
       cbn [q_disq qset_compl]. rewrite Hq. cbn [negb andb].
       split; intro Hq'; [|destruct (Nat.eqb c (c_my cf)); cbn in Hq'; rewrite Hq in Hq'; discriminate Hq'].
       split; [|exact PB].
       destruct (Nat.eqb_spec c (c_my cf)) as [Ecp|Ecp].
-      * apply (SA_answer A q b z _ Eb S Eac Hrz); cbn; auto.
-        left. fold c. split; [exact Ecp|]. split; [rewrite <- Ecp; exact Ecm|]. split; [|reflexivity].
+      * apply (SA_answer A q b z _ Eb S Eac Hrz); cbn; auto; try (intro c'; fold c; rewrite Ecm; reflexivity).
+        left. fold c. split; [exact Ecp|]. split; [unfold p; rewrite <- Ecp; exact Ecm|]. split; [|reflexivity].
         intros a Ea. rewrite Evo in Ea. discriminate Ea.
-      * apply (SA_answer A q b z _ Eb S Eac Hrz); cbn; auto.
+      * apply (SA_answer A q b z _ Eb S Eac Hrz); cbn; auto; try (intro c'; fold c; rewrite Ecm; reflexivity).
+        all: try (right; fold c; split; [left; exact Ecp|reflexivity]).
   - (* an unsolicited answer: stored *)
-    rewrite Ecm in PB. cbn [andb] in PB.
+    cbn [andb] in PB.
     assert (PB' : Phi (A ++ [(nph A, IB d (MAnswer (AVal b z)))]) = negb (readable z)).
     { rewrite PB. destruct (vecOk A); rewrite orb_false_r; reflexivity. }
     destruct (readable z) eqn:Hrz.
@@ -932,9 +934,312 @@ Proof.
     rewrite (read_star_readable z 0 Hrz).
     split; intro Hq'; [|cbn in Hq'; rewrite Hq in Hq'; discriminate Hq'].
     split; [|exact PB'].
-    apply (SA_answer A q b z _ Eb S Eac Hrz); cbn; auto.
-    + fold c. rewrite Ecm. auto.
-    + right. split; [|reflexivity]. destruct (Nat.eqb_spec c p) as [Ecp|Ecp]; [right; rewrite <- Ecp; exact Ecm|left; exact Ecp].
+    apply (SA_answer A q b z _ Eb S Eac Hrz); cbn; auto; try (intro c'; fold c; rewrite Ecm; reflexivity).
+    right. fold c. split; [|reflexivity]. destruct (Nat.eqb_spec c p) as [Ecp|Ecp]; [right; rewrite <- Ecp; exact Ecm|left; exact Ecp].
+Qed.
+
+(* ---------------- the dealer's verification vector ---------------- *)
+Lemma bad_answer_in_spec v (rc : nat -> bool) (an : nat -> option Z) m a js :
+  v_y v = Some (pubkeys cf a) -> (forall c, m c = absEntry (rc c) (an c)) ->
+  (forall c, In c js -> (c < n)%nat) ->
+  bad_answer_in v m js =
+  Some (existsb (fun c => rc c && match an c with Some z => negb (z =? peval a (Z.of_nat c + 1)) | None => false end) js).
+Proof.
+  intros Ey Hm. induction js as [|c js IH]; intro Hj; cbn [bad_answer_in existsb]; [reflexivity|].
+  rewrite IH by (intros; apply Hj; right; assumption).
+  rewrite (Hm c). unfold check_complaint. rewrite Ey.
+  destruct (rc c), (an c) as [z|]; cbn [absEntry c_recv c_ans c_val andb orb]; try reflexivity.
+  rewrite (pubkeys_nth_error a c) by (apply Hj; left; reflexivity).
+  destruct (z =? peval a (Z.of_nat c + 1)); reflexivity.
+Qed.
+
+Lemma vec_dup_same A k vb v : vecF A = Some v -> same_facts A (A ++ [(k, IB d (MVec vb))]).
+Proof.
+  intro E. unfold same_facts.
+  split; [rewrite vecF_app, E; reflexivity|]. split; [rewrite shF_app; destruct (shF A); reflexivity|].
+  split; [intro c; rewrite ansF_app; cbn; destruct (ansF A c); reflexivity|].
+  split; [intro c; rewrite ansEarly_app; cbn; rewrite orb_false_r; reflexivity|].
+  split; [rewrite fatal_app; cbn; rewrite andb_false_r, orb_false_r; reflexivity|].
+  split; [intro c; rewrite compF_app; cbn; rewrite orb_false_r; reflexivity|].
+  split; [rewrite forced_app, orb_false_r; reflexivity|rewrite nph_app; reflexivity].
+Qed.
+
+Lemma vec_late_same A k vb : (1 <= k)%nat -> same_facts A (A ++ [(k, IB d (MVec vb))]).
+Proof.
+  intro Hk. unfold same_facts.
+  split; [symmetry; apply vecF_late; exact Hk|]. split; [rewrite shF_app; destruct (shF A); reflexivity|].
+  split; [intro c; rewrite ansF_app; cbn; destruct (ansF A c); reflexivity|].
+  split; [intro c; rewrite ansEarly_app; cbn; rewrite orb_false_r; reflexivity|].
+  split; [rewrite fatal_app; cbn; rewrite andb_false_r, orb_false_r; reflexivity|].
+  split; [intro c; rewrite compF_app; cbn; rewrite orb_false_r; reflexivity|].
+  split; [rewrite forced_app, orb_false_r; reflexivity|rewrite nph_app; reflexivity].
+Qed.
+
+Section Vector.
+Variables (A : alist) (vb : vbody).
+Hypothesis Hnone : vecF A = None.
+Hypothesis Hk : nph A = 0%nat.
+Let B := A ++ [(nph A, IB d (MVec vb))].
+
+Lemma vec_vecF : vecF B = Some vb.
+Proof. unfold B. rewrite vecF_app, Hnone, Hk, !Nat.eqb_refl. reflexivity. Qed.
+Lemma vec_shF : shF B = shF A.
+Proof. unfold B. rewrite shF_app. destruct (shF A); reflexivity. Qed.
+Lemma vec_ansF c : ansF B c = ansF A c.
+Proof. unfold B. rewrite ansF_app. cbn. destruct (ansF A c); reflexivity. Qed.
+Lemma vec_ansEarly c : ansEarly B c = ansEarly A c.
+Proof. unfold B. rewrite ansEarly_app. cbn. rewrite orb_false_r. reflexivity. Qed.
+Lemma vec_fatal : fatal B = fatal A.
+Proof. unfold B. rewrite fatal_app. cbn. rewrite andb_false_r, orb_false_r. reflexivity. Qed.
+Lemma vec_forced : forced B = forced A.
+Proof. unfold B. rewrite forced_app, orb_false_r. reflexivity. Qed.
+Lemma vec_nph : nph B = nph A.
+Proof. unfold B. rewrite nph_app. reflexivity. Qed.
+Lemma vec_compF c : compF B c = compF A c.
+Proof. unfold B. rewrite compF_app. cbn. rewrite orb_false_r. reflexivity. Qed.
+Lemma vec_vecOk_A : vecOk A = None.
+Proof. unfold DkgQualFacts.vecOk. rewrite Hnone. reflexivity. Qed.
+Lemma vec_complained c : c <> p -> complained B c = complained A c.
+Proof.
+  intro Hc. unfold DkgQualFacts.complained. rewrite (proj2 (Nat.eqb_neq c (c_my cf)) Hc). apply vec_compF.
+Qed.
+End Vector.
+
+Lemma existsb_or_point' (f g : nat -> bool) o bb l :
+  existsb (fun c => (f c || (Nat.eqb o c && bb)) && g c) l
+  = existsb (fun c => f c && g c) l || (existsb (Nat.eqb o) l && bb && g o).
+Proof.
+  induction l as [|a l IH]; cbn; [reflexivity|]. rewrite IH.
+  set (E1 := existsb (fun c => f c && g c) l). set (E2 := existsb (Nat.eqb o) l).
+  destruct (Nat.eqb_spec o a) as [->|]; destruct (f a), (g a), E1, E2, bb; reflexivity.
+Qed.
+
+Lemma Phi_of_badVec A : badVec d A = true -> Phi A = true.
+Proof. intro H. unfold DkgQualFacts.Phi. rewrite H. rewrite !orb_true_r. reflexivity. Qed.
+Lemma Phi_of_wrongAns A : wrongAns cf d A = true -> Phi A = true.
+Proof. intro H. unfold DkgQualFacts.Phi. rewrite H. rewrite !orb_true_r. reflexivity. Qed.
+Lemma Phi_of_fatal A : fatal A = true -> Phi A = true.
+Proof. intro H. unfold DkgQualFacts.Phi. rewrite H. rewrite !orb_true_r. reflexivity. Qed.
+Lemma Phi_of_forced A : forced A = true -> Phi A = true.
+Proof. intro H. unfold DkgQualFacts.Phi. rewrite H. reflexivity. Qed.
+Lemma Phi_of_noVec A : noVec d A = true -> Phi A = true.
+Proof. intro H. unfold DkgQualFacts.Phi. rewrite H. rewrite !orb_true_r. reflexivity. Qed.
+Lemma Phi_of_tooMany A : tooMany cf d A = true -> Phi A = true.
+Proof. intro H. unfold DkgQualFacts.Phi. rewrite H. rewrite !orb_true_r. reflexivity. Qed.
+
+Section VectorOk.
+Variables (A : alist) (l : list Z) (q : qinst).
+Hypothesis Hnone : vecF A = None.
+Hypothesis Hk : nph A = 0%nat.
+Hypothesis S : StateAbs A q.
+Hypothesis P : Phi A = false.
+Let a := fixpoly (c_t cf) l.
+Let B := A ++ [(nph A, IB d (MVec (VOk l)))].
+Let g (c : nat) : bool := match ansF A c with Some z => negb (z =? peval a (Z.of_nat c + 1)) | None => false end.
+Let W : bool := existsb (fun c => complained A c && g c) (seq 0 n).
+
+Lemma vok_vecOk : vecOk B = Some a.
+Proof. unfold DkgQualFacts.vecOk. unfold B. rewrite (vec_vecF A (VOk l) Hnone Hk). reflexivity. Qed.
+
+Lemma vok_complained c : complained B c = complained A c || (Nat.eqb p c && ownc B).
+Proof.
+  destruct (Nat.eqb_spec p c) as [<-|Hc].
+  - unfold DkgQualFacts.complained. unfold p. rewrite Nat.eqb_refl. cbn [andb].
+    destruct (ownc A) eqn:E; [|reflexivity]. cbn [orb]. unfold B. apply ownc_mono. exact E.
+  - cbn [andb]. rewrite orb_false_r. unfold B. apply vec_complained. intro; apply Hc; symmetry; assumption.
+Qed.
+
+Lemma vok_wrongAns : wrongAns cf d B = W || (ownc B && g p).
+Proof.
+  destruct (Phi_false_inv A P) as (_ & _ & P3 & _).
+  unfold wrongAns. rewrite vok_vecOk.
+  rewrite (existsb_ext' _ (fun c => (complained A c || (Nat.eqb p c && ownc B)) && g c)).
+  2:{ intro c. rewrite vok_complained. unfold B. rewrite vec_ansF. unfold g.
+      destruct (ansF A c) as [z|] eqn:Ez; [|reflexivity]. rewrite (badFirst_readable A c z P3 Ez). reflexivity. }
+  rewrite existsb_or_point', existsb_eqb_seq by exact Hp. reflexivity.
+Qed.
+
+Lemma vok_Phi : Phi B = W || (ownc B && g p).
+Proof.
+  destruct (Phi_false_inv A P) as (P1 & P2 & P3 & P4 & P5 & P6 & P7).
+  pose proof (vec_forced A (VOk l)) as Ffo. pose proof (vec_fatal A (VOk l)) as Ff.
+  pose proof (vec_nph A (VOk l)) as Fn. pose proof (vec_vecF A (VOk l) Hnone Hk) as Fv.
+  fold B in Ffo, Ff, Fn, Fv.
+  unfold DkgQualFacts.Phi. rewrite Ffo, Ff, P1, P2.
+  rewrite (badFirst_same A B (vec_ansF A (VOk l))), P3.
+  assert (E4 : badVec d B = false) by (unfold badVec; rewrite Fv; reflexivity).
+  assert (E5 : noVec d B = false) by (unfold noVec; rewrite Fn, Hk; reflexivity).
+  assert (E6 : tooMany cf d B = false) by (unfold tooMany; rewrite Fn, Hk; reflexivity).
+  rewrite E4, E5, E6, vok_wrongAns. reflexivity.
+Qed.
+
+(* the state after the vector was accepted *)
+Lemma SA_vector q' :
+  q_st q' = q_st q -> q_ct q' = q_ct q ->
+  v_vArecv (q_v q') = true -> v_vA (q_v q') = VAFull a -> v_y (q_v q') = Some (pubkeys cf a) ->
+  v_xrecv (q_v q') = v_xrecv (q_v q) ->
+  (forall c, q_compl q' c = if Nat.eqb c p then absEntry (ownc B) (ansF A p) else q_compl q c) ->
+  (isSome (shF A) = true -> v_x (q_v q') = peval a (Z.of_nat p + 1) \/ (ownc B = true /\ ansF A p = None)) ->
+  StateAbs B q'.
+Proof.
+  intros E1 E2 Er EvA Ey Exr Ec Hx.
+  pose proof S as [Sst Sct Svr Svok Svnone Sxr Scompl Searly Sx Sx0 Sx1].
+  pose proof (vec_nph A (VOk l)) as Fn. pose proof (vec_vecF A (VOk l) Hnone Hk) as Fv.
+  pose proof (vec_shF A (VOk l)) as Fs. pose proof (vec_ansF A (VOk l)) as Fa. pose proof (vec_ansEarly A (VOk l)) as Fe.
+  fold B in Fn, Fv, Fs, Fa, Fe.
+  refine (mkSA _ _ _ _ _ _ _ _ _ _ _ _ _); rewrite ?Fn, ?Fs, ?Fv, ?E1, ?E2, ?Exr; auto.
+  - intros a' Ea. rewrite vok_vecOk in Ea. inversion Ea; subst a'. auto.
+  - rewrite vok_vecOk. discriminate.
+  - intro c. rewrite Ec. rewrite Fa.
+    destruct (Nat.eqb_spec c p) as [->|Hc].
+    + unfold DkgQualFacts.complained. unfold p. rewrite Nat.eqb_refl. reflexivity.
+    + pose proof (vec_complained A (VOk l) c Hc) as Fc. fold B in Fc. rewrite Fc. apply Scompl.
+  - intros Hn c. rewrite Fe, Fa. apply Searly. exact Hn.
+  - intros a' Ea Hs. rewrite vok_vecOk in Ea. inversion Ea; subst a'. rewrite Hk in Hs.
+    destruct Hs as [Hs|Hs]; [|lia]. destruct (Hx Hs) as [L|[R1 R2]]; [left; exact L|right].
+    rewrite Fa. split; [|exact R2]. unfold DkgQualFacts.complained. unfold p. rewrite Nat.eqb_refl. exact R1.
+  - discriminate.
+  - discriminate.
+Qed.
+
+Lemma vok_ownc :
+  ownc B = match shF A with
+           | Some (MShare (SVal z)) => if readable z then negb (z =? peval a (Z.of_nat p + 1)) else true
+           | Some _ => true
+           | None => false
+           end.
+Proof.
+  pose proof (vec_nph A (VOk l)) as Fn. pose proof (vec_shF A (VOk l)) as Fs. fold B in Fn, Fs.
+  unfold DkgQualFacts.ownc. rewrite Fs, Fn, Hk, vok_vecOk. reflexivity.
+Qed.
+
+End VectorOk.
+
+Lemma verify_share_pub v a : v_y v = Some (pubkeys cf a) ->
+  verify_share cf v = Some (v_x v =? peval a (Z.of_nat p + 1)).
+Proof. intro Ey. unfold verify_share. rewrite Ey, (pubkeys_nth_error a (c_my cf) Hp). reflexivity. Qed.
+
+Lemma check_complaint_pub v a c val : v_y v = Some (pubkeys cf a) -> (c < n)%nat ->
+  check_complaint v c val = Some (negb (val =? peval a (Z.of_nat c + 1))).
+Proof. intros Ey Hc. unfold check_complaint. rewrite Ey, (pubkeys_nth_error a c Hc). reflexivity. Qed.
+
+Lemma step_vector A q vb :
+  q_disq q = false -> StateAbs A q -> Phi A = false ->
+  match q_receive_vector cf d d vb q with
+  | Some (q', _) => Refines (A ++ [(nph A, IB d (MVec vb))]) q'
+  | None => False
+  end.
+Proof.
+  intros Hq S P. unfold q_receive_vector. rewrite Nat.eqb_refl. cbn [negb].
+  pose proof S as [Sst Sct Svr Svok Svnone Sxr Scompl Searly Sx Sx0 Sx1].
+  destruct (q_st q) eqn:Est.
+  { apply (refines_same A); auto. apply vec_late_same. symmetry in Sst. apply Nat.leb_le in Sst. exact Sst. }
+  assert (Hk : nph A = 0%nat).
+  { symmetry in Sst. apply Nat.leb_gt in Sst. lia. }
+  destruct (v_vArecv (q_v q)) eqn:Er.
+  { rewrite Svr in Er. destruct (vecF A) as [v0|] eqn:Ev; [|discriminate].
+    apply (refines_same A); auto. eapply vec_dup_same; eauto. }
+  destruct (vecF_none A q S Er) as [Hnone Hvo].
+  destruct vb as [|k|l].
+  - split; intro Hq'; [discriminate Hq'|]. apply Phi_of_badVec. unfold badVec.
+    rewrite (vec_vecF A VBadLen Hnone Hk). reflexivity.
+  - split; intro Hq'; [discriminate Hq'|]. apply Phi_of_badVec. unfold badVec.
+    rewrite (vec_vecF A (VBad k) Hnone Hk). reflexivity.
+  - set (a := fixpoly (c_t cf) l).
+    set (v2 := set_y (set_vA (set_vArecv (q_v q) true) (VAFull a)) (Some (pubkeys cf a))).
+    set (q1 := qset_v q v2).
+    set (B := A ++ [(nph A, IB d (MVec (VOk l)))]).
+    pose proof (vok_Phi A l Hnone Hk P) as PB. pose proof (vok_ownc A l Hnone Hk) as OB.
+    fold a B in PB, OB.
+    assert (Ey2 : v_y v2 = Some (pubkeys cf a)) by reflexivity.
+    rewrite (bad_answer_in_spec v2 (complained A) (ansF A) (q_compl q1) a (seq 0 (c_n cf)) Ey2 Scompl).
+    2:{ intros c Hin. apply in_seq in Hin. unfold n. lia. }
+    match goal with |- context[if ?e then Some (qset_disq _ true, _) else _] => destruct e eqn:EW end.
+    { (* a registered complaint has a wrong answer *)
+      split; intro Hq'; [discriminate Hq'|]. rewrite PB. unfold n. rewrite EW. reflexivity. }
+    unfold n in PB. rewrite EW in PB. cbn [orb] in PB.
+    set (gp := match ansF A p with Some z => negb (z =? peval a (Z.of_nat p + 1)) | None => false end) in *.
+    assert (SAq : forall q', q_st q' = q_st q -> q_ct q' = q_ct q -> q_v q' = v2 ->
+              (forall c, q_compl q' c = if Nat.eqb c p then absEntry (ownc B) (ansF A p) else q_compl q c) ->
+              (isSome (shF A) = true -> v_x (q_v q) = peval a (Z.of_nat p + 1) \/ (ownc B = true /\ ansF A p = None)) ->
+              StateAbs B q').
+    { intros q' E1 E2 E3 E4 Hx. apply (SA_vector A l q Hnone Hk S q'); auto; rewrite ?E3; auto. }
+    assert (Ecp : q_compl q p = absEntry (ownc A) (ansF A p)).
+    { rewrite (Scompl p). unfold DkgQualFacts.complained. unfold p. rewrite Nat.eqb_refl. reflexivity. }
+    assert (Ecq : forall ob, ob = ownc A -> forall c, q_compl q c = if Nat.eqb c p then absEntry ob (ansF A p) else q_compl q c).
+    { intros ob -> c. destruct (Nat.eqb_spec c p) as [->|]; [exact Ecp|reflexivity]. }
+    cbn [v_xrecv v2 set_y set_vA set_vArecv]. rewrite Sxr.
+    destruct (shF A) as [m|] eqn:Esh; cbn [isSome].
+    2:{ (* no share yet *)
+        rewrite OB in PB. cbn [andb] in PB.
+        split; intro Hq'; [|cbn in Hq'; rewrite Hq in Hq'; discriminate Hq'].
+        split; [|exact PB]. apply SAq; auto; [|intro; discriminate].
+        apply Ecq. rewrite OB. unfold DkgQualFacts.ownc. rewrite Esh, Hk. reflexivity. }
+    rewrite (verify_share_pub v2 a Ey2). cbn [v_x v2 set_y set_vA set_vArecv].
+    assert (Hmal : ownc A = true -> ownc B = true ->
+               match (if v_x (q_v q) =? peval a (Z.of_nat p + 1) then Some (q1, @nil event) else build_complaint cf d q1) with
+               | Some (q', _) => Refines B q'
+               | None => False
+               end).
+    { (* the complaint was built when the malformed share came: nothing happens now *)
+      intros OA OBt. rewrite OBt in PB.
+      assert (R1 : Refines B q1).
+      { split; intro Hq'; [|cbn in Hq'; rewrite Hq in Hq'; discriminate Hq'].
+        assert (Hg : gp = false) by (destruct gp; [discriminate PB|reflexivity]).
+        split; [|exact PB]. apply SAq; auto; [apply Ecq; congruence|].
+        intros _. destruct (ansF A p) as [z'|] eqn:Ez'; [left|right; auto].
+        assert (Ecm : complained A p = true) by (unfold DkgQualFacts.complained; unfold p; rewrite Nat.eqb_refl; exact OA).
+        rewrite (Sx0 Hnone Ecm z' Ez'). unfold gp in Hg. rewrite Ez' in Hg.
+        apply negb_false_iff in Hg. apply Z.eqb_eq in Hg. exact Hg. }
+      destruct (v_x (q_v q) =? peval a (Z.of_nat p + 1)); [exact R1|].
+      unfold build_complaint. cbn [q_compl q1 qset_v]. rewrite Ecp, OA.
+      destruct (ansF A p); cbn [absEntry c_recv]; exact R1. }
+    destruct m as [|sb|vb'|cb|ab|tg];
+      try (assert (OA : ownc A = true) by (unfold DkgQualFacts.ownc; rewrite Esh; reflexivity);
+           assert (OBt : ownc B = true) by (rewrite OB; reflexivity);
+           pose proof (Hmal OA OBt) as HM;
+           destruct (v_x (q_v q) =? peval a (Z.of_nat p + 1)); exact HM).
+    destruct sb as [|z];
+      try (assert (OA : ownc A = true) by (unfold DkgQualFacts.ownc; rewrite Esh; reflexivity);
+           assert (OBt : ownc B = true) by (rewrite OB; reflexivity);
+           pose proof (Hmal OA OBt) as HM;
+           destruct (v_x (q_v q) =? peval a (Z.of_nat p + 1)); exact HM).
+    destruct (readable z) eqn:Hrz.
+    2:{ assert (OA : ownc A = true) by (unfold DkgQualFacts.ownc; rewrite Esh, Hrz; reflexivity).
+        assert (OBt : ownc B = true) by (rewrite OB, Hrz; reflexivity).
+        pose proof (Hmal OA OBt) as HM.
+        destruct (v_x (q_v q) =? peval a (Z.of_nat p + 1)); exact HM. }
+    (* a readable share came before the vector *)
+    assert (OA : ownc A = false) by (unfold DkgQualFacts.ownc; rewrite Esh, Hrz, Hvo; reflexivity).
+    rewrite (Sx1 Hnone z eq_refl Hrz). rewrite Hrz in OB.
+    destruct (z =? peval a (Z.of_nat p + 1)) eqn:Ez; cbn [negb] in OB.
+    + (* it matches *)
+      rewrite OB in PB. cbn [andb] in PB.
+      split; intro Hq'; [|cbn in Hq'; rewrite Hq in Hq'; discriminate Hq'].
+      split; [|exact PB]. apply SAq; auto; [apply Ecq; congruence|].
+      intros _. left. rewrite (Sx1 Hnone z eq_refl Hrz). apply Z.eqb_eq. exact Ez.
+    + (* it does not: the own complaint is built now *)
+      rewrite OB in PB. cbn [andb] in PB.
+      unfold build_complaint. cbn [q_compl q1 qset_v]. rewrite Ecp, OA.
+      destruct (ansF A p) as [z'|] eqn:Ez'; cbn [absEntry c_recv c_ans c_val].
+      * (* an unsolicited answer is stored: it is checked now *)
+        cbn [q_v v_vArecv v_xrecv v2 set_y set_vA set_vArecv andb]. rewrite Sxr, Esh. cbn [isSome andb].
+        rewrite (verify_share_pub v2 a Ey2). cbn [andb].
+        rewrite (check_complaint_pub v2 a p z' Ey2 Hp).
+        unfold gp in PB. rewrite Ez' in PB.
+        destruct (z' =? peval a (Z.of_nat p + 1)) eqn:Ez2; cbn [negb] in *.
+        -- split; intro Hq'; [|cbn in Hq'; discriminate Hq'].
+           split; [|exact PB]. apply SAq; cbn; auto.
+           ++ intro c. unfold upd. destruct (Nat.eqb c p); [rewrite OB; reflexivity|reflexivity].
+           ++ intros _. left. apply Z.eqb_eq. exact Ez2.
+        -- split; intro Hq'; [cbn in Hq'; discriminate Hq'|]. exact PB.
+      * cbn [q_v v_vArecv v_xrecv v2 set_y set_vA set_vArecv andb]. rewrite Sxr, Esh. cbn [isSome andb].
+        rewrite (verify_share_pub v2 a Ey2). cbn [andb].
+        unfold gp in PB. rewrite Ez' in PB.
+        split; intro Hq'; [|cbn in Hq'; rewrite Hq in Hq'; discriminate Hq'].
+        split; [|exact PB]. apply SAq; cbn; auto.
+        -- intro c. unfold upd. destruct (Nat.eqb c p); [rewrite OB; reflexivity|reflexivity].
+        -- intros _. right. rewrite OB. auto.
 Qed.
 
 End Refine.
